@@ -356,6 +356,14 @@ def check_C07(cx):
                     ("rf", cfg({"W1": W("W1", "Wv"), "W2": W("CW1")}, qsize=2, until=True, serve="full", reads=2, maxfaults=1)),
                     ("rfc", cfg({"W1": W("W1", "Wv"), "W2": W("CW1")}, {"C1": "e1"}, qsize=1, until=False, serve="full", reads=1, maxfaults=2))]:
         results = cc.random_runs(cx, name, c, 40 if quick else 400, fault_prob=0.3, sizes=NZ_SIZES)
+    # handler panics on several goroutines at once: each one is delivered to the exception handlers (which consume it)
+    # while another goroutine is still inside the exception handler; the channel stays open and usable
+    hx = cfg({"W1": W("MX", "M"), "W2": W("MX"), "W3": W("M", "MX")}, qsize=1, until=True)
+    cc.mc_and_replay_cex(cx, "MChexc", hx, ["TypeOK", "C01_Prefix", "C02_Responsible"], what="C07 concurrent handler panics are consumed, the channel keeps working")
+    st = cc.replay_graph(cx, "ghexc", cfg({"W1": W("MX"), "W2": W("MX", "M")}, qsize=1, until=True), max_paths=300 if quick else None)
+    log("  replay ghexc: %s" % st)
+    for name, c in [("hexc", hx), ("hexcsync", cfg({"W1": W("MX", "M"), "W2": W("MX"), "W3": W("MV", "MX")}, qsize=0))]:
+        cc.random_runs(cx, name, c, 40 if quick else 400, sizes=NZ_SIZES)
     for f, case, r in cx.fails:
         case["_module"] = "chan"
     return check_pipeline(cx, "C07")
@@ -937,7 +945,7 @@ def check_C15(cx):
                 p = dict(progs[pi])
                 p["size"] = sizes[cx.rnd.randrange(len(sizes))]
                 pg.append(p)
-            cases.append({"id": "h%d" % k, "reqs": rq, "progs": pg, "frag": ("whole", "one", "rand", "perreq")[k % 4], "async": k % 3 == 0,
+            cases.append({"id": "h%d" % k, "reqs": rq, "progs": pg, "frag": ("whole", "one", "rand", "perreq", "heads")[k % 5], "async": k % 3 == 0,
                           "seed": cx.rnd.randrange(1, 1 << 30)})
     rs = run_driver(cx.driver, "http", cases, cx.wd, tag="h", timeout=1500)
     cx.absorb(rs, cases)
